@@ -126,6 +126,23 @@ def degenerate_modules(tier):
     add("contents constraint on a non-string", "A ::= INTEGER (CONTAINING BOOLEAN)")
     add("odd hstring for OCTET STRING", "v OCTET STRING ::= 'ABC'H")
     add("choice value with a struct payload", "C ::= CHOICE { p SEQUENCE { n INTEGER } } v C ::= p:{ n 3 }")
+
+    # several modules: IMPORTS that the linker completes (governing types of imported values), dangling and cyclic imports
+    def addm(role, *mods, assume=None):
+        out.append((role, ' '.join(f"{nm} DEFINITIONS AUTOMATIC TAGS ::= BEGIN {body} END" for nm, body in mods), assume))
+    bdef = f"Limit ::= INTEGER (0..{P1}) limit Limit ::= 10 Other ::= BOOLEAN"
+    addm("imported value, governing type not imported", ('A', "IMPORTS limit FROM B; Count ::= INTEGER (0..limit)"), ('B', bdef), assume=lambda v: [v >= 10])
+    addm("imported value next to its governing type", ('A', "IMPORTS limit, Limit FROM B; Count ::= INTEGER (0..limit)"), ('B', bdef), assume=lambda v: [v >= 10])
+    addm("imported value and an unrelated type from the same module", ('A', "IMPORTS Other, limit FROM B; Count ::= SEQUENCE { o Other, n INTEGER DEFAULT limit }"), ('B', bdef), assume=lambda v: [v >= 10])
+    addm("imported value, governing type from a third module", ('A', "IMPORTS limit FROM B Other FROM C; Count ::= INTEGER (0..limit)"), ('B', "IMPORTS Limit FROM C; limit Limit ::= 10"),
+         ('C', f"Limit ::= INTEGER (0..{P1}) Other ::= NULL"), assume=lambda v: [v >= 10])
+    addm("imported value used as DEFAULT of the governing type", ('A', "IMPORTS limit FROM B; S ::= SEQUENCE { n INTEGER DEFAULT limit }"), ('B', bdef), assume=lambda v: [v >= 10])
+    addm("import from a module that is not there", ('A', "IMPORTS Gone, gone FROM Nowhere; S ::= SEQUENCE { g Gone DEFAULT gone }"))
+    addm("import of a symbol the module does not define", ('A', "IMPORTS Missing, missing FROM B; S ::= SEQUENCE { m Missing, n INTEGER (0..missing) }"), ('B', bdef))
+    addm("modules importing from each other", ('A', "IMPORTS Tb, vb FROM B; Ta ::= SEQUENCE { b Tb OPTIONAL } va Ta ::= { }"), ('B', "IMPORTS Ta, va FROM A; Tb ::= SEQUENCE { a Ta OPTIONAL } vb Tb ::= { }"))
+    addm("two modules of the same name", ('A', f"T ::= INTEGER (0..{P1})"), ('A', "T ::= BOOLEAN U ::= T"))
+    addm("imported information object", ('A', "IMPORTS obj, CLS FROM B; T ::= SEQUENCE { i CLS.&id ({Set}), v CLS.&Type ({Set}{@i}) } Set CLS ::= { obj }"),
+         ('B', f"CLS ::= CLASS {{ &id INTEGER (0..{P1}) UNIQUE, &Type }} WITH SYNTAX {{ &Type IDENTIFIED BY &id }} obj CLS ::= {{ BOOLEAN IDENTIFIED BY 1 }}"), assume=lambda v: [v >= 1])
     return out
 
 
@@ -156,9 +173,34 @@ def job_pipe(chk, prog, k, n, tier):
                             pp.render(ex, c.v, text)
                             rendered += 1
                     return (r[0], rendered)
+                def native_bad(ctext, backend=backend):
+                    out = runner.compile(ctext, backend=backend)
+                    if 'panic' in out:
+                        return f"panics ({out['panic'][:80]})"
+                    if 'crash' in out:
+                        return f"aborts the process (exit status {out['crash']}: stack exhaustion or allocation failure)"
+                    if out.get('hang'):
+                        return 'does not terminate within the watchdog time'
+                    errs = [out.get('error')] if not out.get('ok') else out.get('warnings', [])
+                    if any(e and (e.get('display_panicked') or e.get('contextualize_panicked')) for e in errs):
+                        return 'panics while rendering an error / warning'
+                    return None
+                validated = False
                 for r in chk.explore(run):
                     if r.kind == 'ok':
                         chk.res.obligations += 1
+                        if not validated:
+                            # differential validation of the encoding: one instance of the first panic-free path is compiled
+                            # natively; panics the model cannot see (RefCell borrow state is not modelled) surface here
+                            validated = True
+                            m = chk.model_of(r.pc) if r.pc else None
+                            val = model_int(m, v, True) if m is not None else 5
+                            ctext = text.replace(str(P1), str(val))
+                            bad = native_bad(ctext)
+                            if bad:
+                                chk.violation(sig, f"compiling {role} {bad} (native run; not visible on the symbolic path): {ctext!r}", {'kind': 'text', 'text': ctext, 'backend': backend})
+                                continue
+                            chk.res.diff_ok += 1
                         chk.res.discharged += 1
                         continue
                     if r.kind not in ('panic', 'truncated'):
@@ -166,18 +208,7 @@ def job_pipe(chk, prog, k, n, tier):
                     m = chk.model_of(r.pc) if r.pc else None
                     val = model_int(m, v, True) if m is not None else 5
                     ctext = text.replace(str(P1), str(val))
-                    out = runner.compile(ctext, backend=backend)
-                    bad = None
-                    if 'panic' in out:
-                        bad = f"panics ({out['panic'][:80]})"
-                    elif 'crash' in out:
-                        bad = f"aborts the process (exit status {out['crash']}: stack exhaustion or allocation failure)"
-                    elif out.get('hang'):
-                        bad = 'does not terminate within the watchdog time'
-                    else:
-                        errs = [out.get('error')] if not out.get('ok') else out.get('warnings', [])
-                        if any(e and (e.get('display_panicked') or e.get('contextualize_panicked')) for e in errs):
-                            bad = 'panics while rendering an error / warning'
+                    bad = native_bad(ctext)
                     chk.res.obligations += 1
                     if bad:
                         chk.violation(sig, f"compiling {role} {bad}: {ctext!r}", {'kind': 'text', 'text': ctext, 'backend': backend})
